@@ -11,7 +11,7 @@
    list of every (party, quotient) seat awarded; tot = prev_gains + awarded. *)
 From Coq Require Import ZArith QArith List Permutation.
 From VL Require Import Prelude.PyDict Model.Divisor Model.HighestAverages
-     Proofs.Dict_proofs Proofs.HA_proofs Proofs.Divisor_proofs.
+     Proofs.Dict_proofs Proofs.HA_proofs Proofs.Divisor_proofs Proofs.Mono_proofs Proofs.HAUnique_proofs.
 Import ListNotations.
 Open Scope Z_scope.
 
@@ -77,12 +77,38 @@ Section C01.
   Proof. exact (ha_queue d votes caps prev n (proj1 Hd) (proj2 Hd) Hvotes Hnd Hprev). Qed.
 End C01.
 
+(* UNIQUENESS: the loop computes THE divisor-method apportionment.  With a strictly increasing divisor, positive votes,
+   no previous gains and no caps, any allocation s of exactly n seats whose min-max inequality is strict (nobody's next
+   quotient reaches anybody's last awarded quotient: no tie at the cut) is what the loop ends with - no tie reported,
+   no seat left, totals = s. *)
+Theorem C01_unique : forall (d : Z -> Q) (votes : list (C * Q)) (n : Z) (s : C -> Z),
+  divisor_ok d -> divisor_strict d ->
+  (forall c v, In (c, v) votes -> (0 < v)%Q) -> NoDup (map fst votes) ->
+  (forall c, In c (map fst votes) -> 0 <= s c) ->
+  zsum (map s (map fst votes)) = n ->
+  (forall c v c' v', In (c, v) votes -> In (c', v') votes -> 0 < s c' -> (v / d (s c) < v' / d (s c' - 1)%Z)%Q) ->
+  let fin := final_state d votes n [] [] in
+  st_tie fin = None /\ st_rem fin = 0 /\ forall c, In c (map fst votes) -> dget_or (st_totals fin) c 0 = s c.
+Proof.
+  intros d votes n s [Hpos _] Hstrict Hv Hnd Hs0 Hsum Hmm.
+  exact (ha_unique d votes n Hpos Hstrict Hv Hnd s Hs0 Hsum Hmm).
+Qed.
+
 (* the hypotheses on the divisor hold for every built-in and every wrapper *)
 Theorem C01_builtin_divisors : forall i, divisor_ok (divisor_by_id i).
 Proof. exact builtin_ok. Qed.
 Theorem C01_modified_divisors : forall f c, divisor_ok f -> (0 < c)%Q -> (c <= f 1%Z)%Q ->
   divisor_ok (modified_first_coef f c).
 Proof. exact modified_ok. Qed.
+
+(* non-vacuity of C01_unique: 60/30/10 votes, D'Hondt, 6 seats: 4/2/0 satisfies the strict inequality *)
+Example C01_unique_example :
+  let votes := [(1%positive, 60#1); (2%positive, 30#1); (3%positive, 10#1)]%Q in
+  let s := fun c : C => if Pos.eqb c 1 then 4 else if Pos.eqb c 2 then 2 else 0 in
+  zsum (map s (map fst votes)) = 6 /\
+  forallb (fun cv => forallb (fun cv' => negb (0 <? s (fst cv')) ||
+     negb (Qle_bool (snd cv' / d_hondt (s (fst cv') - 1)) (snd cv / d_hondt (s (fst cv))))) votes) votes = true.
+Proof. vm_compute. split; reflexivity. Qed.
 
 (* non-vacuity: a concrete run with a tie under a cap *)
 Example C01_example_run :
@@ -96,6 +122,7 @@ Print Assumptions C01_awards_genuine.
 Print Assumptions C01_account.
 Print Assumptions C01_total.
 Print Assumptions C01_ties.
+Print Assumptions C01_unique.
 Print Assumptions C01_sorted_inv.
 Print Assumptions C01_builtin_divisors.
 Print Assumptions C01_modified_divisors.
